@@ -93,19 +93,25 @@ C15Cases ==
 (* small decoded lengths D: limits and bounded lengths range over 0..D+2                 *)
 TinyIn == {In("empty", 0, 0, 0), In("run", 1, 65, 0), In("rnd", 5, 5, 0), In("run", 9, 7, 0), In("alt", 6, 0, 255)}
 MoreIn == {In("rnd", n, 6, 0) : n \in {2, 3, 4, 8, 13, 24}} \cup {In("run", 24, 0, 0), In("runs", 2, 3, 2), In("ramp", 17, 5, 1)}
+(* groups of four zero bytes, 4-aligned or not (ASCII85 'z'), all-zero data, zero blocks at several offsets: "zeros" = n bytes, *)
+(* non-zero except b zero bytes at offset a                                                                                  *)
+ZeroIn == {In("run", 4, 0, 0), In("run", 8, 0, 0), In("run", 11, 0, 0), In("zeros", 11, 0, 8), In("zeros", 12, 4, 4),
+           In("zeros", 13, 4, 8), In("zeros", 10, 1, 8)}
+ZeroInMore == {In("run", n, 0, 0) : n \in {5, 12, 16}} \cup {In("zeros", 16, a, 8) : a \in {0, 3, 4, 8}} \cup {In("zeros", 9, 5, 4), In("zeros", 20, 8, 12)}
 (* predictor stages: "rows" inputs = n whole rows of predictor-encoded data *)
 RowsIn(S) == {In("rows", n, 1, 0) : n \in S}
 PredStages(parms) == WithParms("Fl", {-1}, Predictors \ {1}, parms)
 
 C16Cases ==
   IF Tier = "quick"
-  THEN      Cross(Pipes1(Kinds), TinyIn)
+  THEN      Cross(Pipes1(Kinds), TinyIn \cup ZeroIn)
+       \cup Cross(Pipes2(Kinds), {In("zeros", 11, 4, 4)})
        \cup Cross(Pipes2(Kinds), {In("empty", 0, 0, 0), In("rnd", 5, 5, 0)})
        \cup Cross(Pipes3({Plain("A85"), Plain("RL"), Plain("Fl"), LZW(1)}), {In("rnd", 4, 7, 0)})
        \cup Cross(Pipes1(PredStages({<<-1, -1, -1>>, <<1, 8, 4>>, <<2, 16, 1>>, <<1, 1, 7>>})), RowsIn(0..2))
        \cup Cross({<<k, s>> : k \in {Plain("A85"), Plain("RL")}, s \in PredStages({<<1, 8, 4>>})}, RowsIn({1, 2}))
-  ELSE      Cross(Pipes1(Kinds) \cup Pipes2(Kinds), TinyIn \cup MoreIn)
-       \cup Cross(Pipes3(Kinds), {In("rnd", 4, 7, 0), In("run", 7, 9, 0), In("empty", 0, 0, 0)})
+  ELSE      Cross(Pipes1(Kinds) \cup Pipes2(Kinds), TinyIn \cup MoreIn \cup ZeroIn \cup ZeroInMore)
+       \cup Cross(Pipes3(Kinds), {In("rnd", 4, 7, 0), In("run", 7, 9, 0), In("empty", 0, 0, 0), In("zeros", 11, 4, 4)})
        \cup Cross(Pipes1(PredStages(ParmFew \cup ({1, 3} \X BpcValues \X {1, 2, 5}) \cup {<<2, 8, 4>>, <<4, 8, 2>>, <<1, 16, 4>>})), RowsIn(0..3))
        \cup Cross({<<k, s>> : k \in Kinds, s \in PredStages({<<1, 8, 4>>, <<2, 8, 3>>})}, RowsIn({0, 1, 2}))
        \cup Cross({<<k, j, s>> : k \in SimpleKinds, j \in {Plain("Fl"), LZW(1)}, s \in PredStages({<<1, 8, 4>>})}, RowsIn({1, 2}))
